@@ -484,7 +484,7 @@ var longHistories = false
 
 func genHistory(seed uint64, variant string, pool []*PoolProg, admitted []int) *RunSpec {
 	r := NewRNG(seed)
-	long := (longHistories && r.Chance(1, 8)) || (!longHistories && r.Chance(1, 12)) || os.Getenv("VERIF_C10_ALL_LONG") != ""
+	long := (longHistories && r.Chance(1, 8)) || (!longHistories && r.Chance(1, 4)) || os.Getenv("VERIF_C10_ALL_LONG") != ""
 	if long {
 		var small []int
 		for _, ix := range admitted {
@@ -755,6 +755,19 @@ func buildPool(baseSeed uint64, nGen int, corpusDir string) []*PoolProg {
 		add(p, -1)
 	}
 	r := NewRNG(deriveSeed(baseSeed, 101, 0))
+	// one program per rare construct, so that every pool contains every construct at least once
+	for fi, f := range programFeatures {
+		forceFeature = f
+		ps := genProgram(r, fmt.Sprintf("feat_%s", f), f == "edit_twin" || r.Chance(1, 3), true)
+		forceFeature = ""
+		a := add(ps[0], -1)
+		if len(ps) > 1 && a >= 0 {
+			if b := add(ps[1], a); b >= 0 {
+				pool[a].TwinOf = b
+			}
+		}
+		_ = fi
+	}
 	for i := 0; i < nGen; i++ {
 		ps := genProgram(r, fmt.Sprintf("gen%04d", i), r.Chance(2, 3), true)
 		a := add(ps[0], -1)
